@@ -10,9 +10,9 @@ use crate::states::{build, Coll, Spec, RECIPES};
 use crate::util::{catch, payload_str, Json, Rng};
 use hashbrown::TryReserveError;
 
-pub const C12_COLLS: [&str; 15] = [
+pub const C12_COLLS: [&str; 17] = [
     "set:Z", "table:Z8", "map:ZxZ",
-    "map:P8xP8", "map:T24xT24", "map:B1xB1", "map:B3xZ", "map:L200xB1", "map:A64xP8", "set:B1", "set:B6", "set:T24", "table:B3", "table:T24", "table:P8",
+    "map:P8xP8", "map:T24xT24", "map:B1xB1", "map:B3xZ", "map:L200xB1", "map:A64xP8", "map:L600xB1", "table:L4K", "set:B1", "set:B6", "set:T24", "table:B3", "table:T24", "table:P8",
 ];
 /// requests above this are recorded and refused by the allocator, never backed by memory
 const BYTE_CAP: usize = 1 << 20;
